@@ -218,6 +218,10 @@ fn lex_source_into_buffer<'source: 'tokens, 'tokens: 'buffer, 'buffer>(
 ) -> Result<(), tokens::TokenAllocError>
 {
 	let mut iter = source.iter().copied().enumerate().peekable();
+	// Literals end at the end of the line, which is either LF or CRLF.
+	let is_end_of_line = |i: usize, x: u8| -> bool {
+		x == b'\n' || (x == b'\r' && source.get(i + 1) == Some(&b'\n'))
+	};
 	let mut line_number = 1;
 	let mut start_of_line = 0;
 	while let Some((i, x)) = iter.next()
@@ -696,14 +700,15 @@ fn lex_source_into_buffer<'source: 'tokens, 'tokens: 'buffer, 'buffer>(
 				let mut closed = false;
 				let mut first_error = None;
 
-				while let Some((_, x)) = iter.next_if(|&(_, y)| y != b'\n')
+				while let Some((_, x)) =
+					iter.next_if(|&(i, y)| !is_end_of_line(i, y))
 				{
 					location.end += 1;
 					if x == b'\\'
 					{
 						let start_of_escape = location.end - 1;
 						location.end += 1;
-						match iter.next_if(|&(_, y)| y != b'\n')
+						match iter.next_if(|&(i, y)| !is_end_of_line(i, y))
 						{
 							Some((_, b'n')) => push_byte(b'\n'),
 							Some((_, b'r')) => push_byte(b'\r'),
@@ -848,14 +853,15 @@ fn lex_source_into_buffer<'source: 'tokens, 'tokens: 'buffer, 'buffer>(
 				let mut closed = false;
 				let mut first_error = None;
 
-				while let Some((_, x)) = iter.next_if(|&(_, y)| y != b'\n')
+				while let Some((_, x)) =
+					iter.next_if(|&(i, y)| !is_end_of_line(i, y))
 				{
 					location.end += 1;
 					if x == b'\\'
 					{
 						let start_of_escape = location.end - 1;
 						location.end += 1;
-						match iter.next_if(|&(_, y)| y != b'\n')
+						match iter.next_if(|&(i, y)| !is_end_of_line(i, y))
 						{
 							Some((_, b'n')) => push_byte(b'\n'),
 							Some((_, b'r')) => push_byte(b'\r'),
